@@ -221,7 +221,13 @@ def entry_grid(ctx, dist):
     import jwsgen as G
     bdir = ctx["bdir"]
     rnd = random.Random(ctx["seed"] + 5)
-    P = prms(bdir)
+    # the operation each entry point needs comes from the DOCUMENTED table, not from the registry of the code under test
+    P = {}
+    rr = subprocess.run([os.path.join(bdir, "h"), "tables"], stdout=subprocess.PIPE, text=True, env=dict(os.environ, **vlib.SAN_ENV))
+    for l in rr.stdout.split("\n"):
+        f = l.split(" ")
+        if f[0] == "alg" and f[1] in DOCUMENTED_PRM:
+            P[f[2]] = DOCUMENTED_EXCEPT.get(f[2], DOCUMENTED_PRM[f[1]])
     keys = G.standard_keys(bdir)
     J = G.dumps
     both, impl_only, want = [], [], {}
@@ -240,6 +246,16 @@ def entry_grid(ctx, dist):
                            "jweenc\t%s\t-\t%s\t00" % (J({"protected": {"alg": "ECDH-ES+A128KW", "enc": "A128GCM"}}), J(G.pub_of(ec))),
                            "jweenc\t%s\t-\t%s\t00" % (J({"protected": {"alg": "RSA-OAEP", "enc": "A128GCM"}}), J(G.pub_of(rsa)) if rsa else "{}")])
     es_tok, kw_tok, ec_tok, rsa_tok = pre
+    # every other symmetric key-wrapping algorithm of the registry, each with a key of its size and a token made with it
+    SYMW = {}
+    for walg, n_ in (("A192KW", 24), ("A256KW", 32), ("A128GCMKW", 16), ("A192GCMKW", 24), ("A256GCMKW", 32),
+                     ("PBES2-HS256+A128KW", 20), ("PBES2-HS384+A192KW", 20), ("PBES2-HS512+A256KW", 20)):
+        if walg in P:
+            wk = G.oct_key(rnd, n_)
+            tm = {"protected": {"alg": walg, "enc": "A128GCM"}}
+            if walg.startswith("PBES2"):
+                tm["protected"]["p2c"] = 1000
+            SYMW[walg] = (wk, G.harness(bdir, ["jweenc\t%s\t-\t%s\t00" % (J(tm), J(wk))])[0])
     for tag, meta in META:
         def add(lst, case, op, what):
             k_ok = None
@@ -269,6 +285,14 @@ def entry_grid(ctx, dist):
             e, d = P["RSA-OAEP"]["eprm"], P["RSA-OAEP"]["dprm"]
             add(impl_only, "jweenc\t%s\t-\t%s\t00" % (J({"protected": {"alg": "RSA-OAEP", "enc": "A128GCM"}}), J(with_meta(G.pub_of(rsa), meta, e))), e, "wrap RSA-OAEP")
             add(impl_only, "jweunw\t%s\t-\t%s" % (rsa_tok, J(with_meta(rsa, meta, d))), d, "unwrap RSA-OAEP")
+        for walg, (wk, wtok) in SYMW.items():
+            e, d = P[walg]["eprm"], P[walg]["dprm"]
+            tm = {"protected": {"alg": walg, "enc": "A128GCM"}}
+            if walg.startswith("PBES2"):
+                tm["protected"]["p2c"] = 1000
+            add(impl_only, "jweenc\t%s\t-\t%s\t00" % (J(tm), J(with_meta(wk, meta, e))), e, "wrap " + walg)
+            if not wtok.startswith(("ERR", "CRASH")):
+                add(impl_only, "jweunw\t%s\t-\t%s" % (wtok, J(with_meta(wk, meta, d))), d, "unwrap " + walg)
         e = P["A128GCM"]["eprm"]
         add(impl_only, "keyok\tenc\tA128GCM\t%s" % J(with_meta(kw, meta, e)), e, "content encryption A128GCM")
         x = P["ECDH"]["prm"]
@@ -290,9 +314,38 @@ def entry_verdict(case, out):
     return "R" if out == "ERR" else "A"
 
 
+# The operation each kind of algorithm needs (RFC 7517 4.3 names; "dir" uses the key itself to encrypt the content, the
+# ECDH-ES family is registered by jose as key wrapping).  A frozen copy: the registry of the running code is compared
+# with it for EVERY registered algorithm, so a permission name changed in one hook table is seen even where the entry
+# grid does not use that algorithm.
+DOCUMENTED_PRM = {"sign": {"sprm": "sign", "vprm": "verify"}, "wrap": {"eprm": "wrapKey", "dprm": "unwrapKey"},
+                  "encr": {"eprm": "encrypt", "dprm": "decrypt"}, "exch": {"prm": "deriveKey"}}
+DOCUMENTED_EXCEPT = {"dir": {"eprm": "encrypt", "dprm": "decrypt"}}
+
+
+def registry_permissions(ctx, dist):
+    r = subprocess.run([os.path.join(ctx["bdir"], "h"), "tables"], stdout=subprocess.PIPE, text=True, env=dict(os.environ, **vlib.SAN_ENV))
+    n = 0
+    for l in r.stdout.split("\n"):
+        f = l.split(" ")
+        if f[0] != "alg" or f[1] not in DOCUMENTED_PRM:
+            continue
+        n += 1
+        have = dict(x.split("=", 1) for x in f[3:] if "=" in x)
+        want_ = DOCUMENTED_EXCEPT.get(f[2], DOCUMENTED_PRM[f[1]])
+        for k_, v_ in want_.items():
+            if have.get(k_) != v_:
+                ctx["rep"].violation("registry-permission:%s:%s" % (f[2], k_),
+                                     "the registered algorithm %s (%s) asks for the operation '%s' where '%s' is the one its entry point needs: a key is then admitted / refused by the wrong key_ops / use grant"
+                                     % (f[2], f[1], have.get(k_), v_), {"registry_line": l, "expected": want_})
+    dist["registered algorithms whose permission names were compared with the documented ones"] = n
+    return n
+
+
 def correspond(ctx):
     names = registry(ctx["bdir"])
     cases, dist = gen(ctx["tier"], ctx["seed"], names)
+    registry_permissions(ctx, dist)
     both, impl_only, want = entry_grid(ctx, dist)
     base = Oracle(names)
 
